@@ -412,6 +412,40 @@ def dst_round(mon, rec, rng):
             rec.violation('date-law-broken:%s' % name, '%s with d=%r t=%r gives %r' % (text, d, t, got), {'kind': 'dst'})
 
 
+def subsecond_offset_round(mon, rec, rng):
+    """offsets are timespans with microsecond resolution: an offset with a fractional-second part is kept exactly and
+    moves the instant by exactly that much"""
+    y, mo, d, h, mi, s_, us = gen_civil(rng)
+    om = gen_offset_min(rng)
+    ms = rng.choice([500, 1, 250, 999, -500])
+    off_us = om * 60 * US + ms * 1000
+    if abs(off_us) >= 86400 * US:
+        return
+    off_text = 'timespan(minutes => %d, milliseconds => %d)' % (om, ms)
+    D = 'datetime(%d, %d, %d, %d, %d, %d, %d, %s)' % (y, mo, d, h, mi, s_, us, off_text)
+    try:
+        dm = md.check_range(md.make(y, mo, d, h, mi, s_, us, off_us))
+        md.check_range((dm[0], 0))
+    except md.OutOfRange:
+        return
+    fu = md.fields((dm[0], 0))
+    U = 'datetime(%d, %d, %d, %d, %d, %d, %d, timespan(0))' % (fu['year'], fu['month'], fu['day'], fu['hour'], fu['minute'], fu['second'], fu['microsecond'])
+    for name, text, want in (('subsecond-offset', '%s.offset.microseconds' % D, off_us), ('subsecond-offset-eq-utc', '%s = %s' % (D, U), True),
+                             ('subsecond-offset-utc-fields', '%s.utc.microsecond' % D, fu['microsecond']),
+                             ('subsecond-offset-diff', '(%s - %s).microseconds' % (D, U), 0),
+                             ('subsecond-offset-replace', '%s.replace(offset => %s).offset.microseconds' % (U, off_text), off_us)):
+        got = mon.run(text, {})
+        rec.count('cases')
+        rec.count('fn.' + name)
+        rec.count('kind.yaql-built')
+        rec.case((text,))
+        if got == ('value', want) or (got[0] == 'value' and isinstance(want, int) and not isinstance(want, bool) and got[1] == want):
+            rec.count('agree')
+        else:
+            rec.violation('date-result-differs-from-instant-model:%s' % name, '%s gives %r, the instant model gives %r' % (text, got, want),
+                          {'kind': 'subsecond'})
+
+
 def run_shard(spec, rec):
     import os
     import time as _time
@@ -424,6 +458,7 @@ def run_shard(spec, rec):
         for i in range(spec['count']):
             one_round(mon, rec, rng, {'kind': 'round', 'shard': spec['name'], 'count': spec['count']})
             dst_round(mon, rec, rng)
+            subsecond_offset_round(mon, rec, rng)
             if i % 20 == 0:
                 rec.sample({'round': i, 'shard': spec['name'], 'terms': ['$d.utc', '$d.timestamp', '($d + $t) - $t', '$d < $e']})
     finally:
